@@ -283,6 +283,7 @@ def run(prog, rep, tier):
             ok = any(cs.blocks[c].term.cmethod == 'new_decompressor_at' for c in o.calls)
         rep.ob('R10.2', ok, 'R10.2|%s|fresh-decompressor' % cs.nkey, 'the state stored by seek(Start) holds a decompressor created in the same call' if ok else 'seek(Start) reuses a decompressor from before the seek', cs.loc())
     r10_4(prog, rep)
+    r10_5(prog, rep)
 
 
 def thorough_extra(rep, verif, repo):
@@ -317,3 +318,59 @@ def r10_4(prog, rep, RULE='R10.4'):
     rep.ob(RULE, ok, RULE + '|%s|always-seeks-absolutely' % body.nkey, 'every Ok result follows inner.seek(SeekFrom::Start(block start))' if ok else
            'sync_inner_with_uncompressed_pos can return Ok without seeking the inner layer (%s): the position the next decompressor starts from then depends on what '
            'was read before' % (', '.join(bad) or 'no absolute seek found'), body.loc())
+
+
+def r10_5(prog, rep, RULE='R10.5'):
+    """"reading with buffers of any sizes": a reader never turns "0 bytes transferred" into an error when 0 bytes were asked for. For every raw
+    read (in an `impl Read::read` of crate mla) that fills the caller's buffer, an edge taken when the count is 0 and from which no Ok result is
+    reachable must lie behind a test that the request was not empty. (An error there also leaves the layer in its placeholder state.)"""
+    from .c13 import ok_payload_locals
+    mla = prog.crates['mla']
+    n = 0
+    for body in mla.bodies:
+        if body.impl_trait != 'std::io::Read' or body.name != 'read' or body.kind == 'Closure':
+            continue
+        raws = [b for b in body.calls() if b.term.ctrait == 'std::io::Read' and b.term.cmethod == 'read' and len(b.term.args) > 1 and b.term.args[1].place is not None
+                and 2 in origins(body, [b.term.args[1].place[0]]).params]
+        for k, rb in enumerate(raws):
+            pay = ok_payload_locals(body, rb) | {rb.term.dest[0]}
+            for bl in body.blocks:
+                si = switch_info(prog, body, bl.idx)
+                if not si or si['kind'] != 'bool' or not body.dominates(rb.idx, bl.idx):
+                    continue
+                e = expr_of(body, si['cond'])
+                if not (e[0] == 'binop' and e[1] in ('Eq', 'Ne') and e[3][0] == 'const' and e[3][1] == 0 and e[2][0] == 'place'):
+                    continue
+                base = e[2][1][0]
+                if base not in pay and not must_derive(body, base, lambda k_, ob_, bb_: k_ == 'call' and bb_ == rb.idx, extra_transparent=('branch',)):
+                    continue
+                zero = si['true'] if e[1] == 'Eq' else si['false']
+                r = reachable_vs(body, zero)
+                oks = [x for x in r if any(st.kind == 'assign' and st.place == (0, ()) and st.rv.r == 'aggregate' and st.rv.j.get('variant') == 'Ok' for st in body.blocks[x].stmts)]
+                tail = [x for x in r if body.blocks[x].term.kind == 'call' and body.blocks[x].term.dest == (0, ()) and body.blocks[x].term.cmethod in ('read', 'map_err')]
+                if oks or tail:
+                    continue      # zero is (also) reported as Ok(..): end of stream, fine
+                n += 1
+                # the error edge must be behind "the request is not empty"
+                guarded = False
+                for g in body.blocks:
+                    sg = switch_info(prog, body, g.idx)
+                    if sg and sg['kind'] == 'bool':
+                        eg = expr_of(body, sg['cond'])
+                        if eg[0] == 'binop' and eg[1] in ('Eq', 'Ne', 'Gt') and eg[3][0] == 'const' and eg[3][1] == 0 and eg[2][0] == 'place':
+                            og = origins(body, [eg[2][1][0]])
+                            if 2 in og.params and any(body.blocks[c].term.cmethod in ('len', 'min') for c in og.calls) and not (og.calls & {rb.idx}):
+                                ne = sg['false'] if eg[1] == 'Eq' else sg['true']
+                                if body.edge_dominates((g.idx, ne), bl.idx) or body.edge_dominates((g.idx, ne), zero):
+                                    guarded = True
+                    rg = branch_on_call(prog, body, g.idx)
+                    if rg and rg[1].cmethod == 'is_empty' and rg[1].args and rg[1].args[0].place is not None and 2 in origins(body, [rg[1].args[0].place[0]], through_calls=False).params:
+                        if body.edge_dominates((g.idx, rg[3]), bl.idx) or body.edge_dominates((g.idx, rg[3]), zero):
+                            guarded = True
+                rep.fn(body)
+                rep.ob(RULE, guarded, RULE + '|%s|raw-read#%d|zero-count-error-needs-nonempty-request' % (body.nkey, k),
+                       'a zero count is an error only when bytes were asked for' if guarded else
+                       'a read that transferred 0 bytes is turned into an error without checking that the caller asked for any: read(&mut []) fails (and leaves the layer '
+                       'unusable) although the same file read alone is fine', body.loc(bl.idx))
+    if n == 0:
+        rep.ob(RULE, True, RULE + '|mla|no-zero-count-error', 'no reader of crate mla turns a zero count of a caller-buffer read into an error', '-')
